@@ -44,6 +44,15 @@ def own_hex(addr: int, data: bytes, rl: int = 16) -> str:
     return "\n".join(lines) + "\n"
 
 
+def size_arg(scn):
+    """--size as the command line spells it: a forced notation (hex in either case, whose LAST digit may be a letter a-f) for
+    the notation scenarios, otherwise varying with the value."""
+    n = scn.get("sizenote")
+    if n:
+        return n % scn["size"]
+    return core.num(scn["size"]) if scn["size"] % 3 else scn["size"]
+
+
 class Run:
     def __init__(self, ctx):
         core.setup_repo_path()
@@ -78,7 +87,7 @@ class Run:
         err = None
         if scn.get("via") == "cli":
             a = ["mpi", "generate", "--output-file", out, "--vendor-name", v, "--class-name", c, "--address",
-                 core.num(scn["addr"]), "--size", core.num(scn["size"] + 0) if scn["size"] % 3 else scn["size"]]
+                 core.num(scn["addr"]), "--size", size_arg(scn)]
             if scn["dp"]:
                 a.append("--downgrade-prevention-enabled")
             if scn["iu"]:
@@ -130,7 +139,7 @@ class Run:
             out.write_bytes(STALE)
         err = None
         if scn.get("via") == "cli":
-            a = ["mpi", "merge", "--output-file", out, "--address", core.num(scn["addr"]), "--size", core.num(scn["size"] + 0) if scn["size"] % 3 else scn["size"]]
+            a = ["mpi", "merge", "--output-file", out, "--address", core.num(scn["addr"]), "--size", size_arg(scn)]
             for f in files:
                 a += ["--file", f]
             p = subprocess.run(core.cli_cmd(*a), cwd=d, env=core.cli_env(), capture_output=True, text=True)
@@ -198,6 +207,12 @@ def gen_scenarios(ctx):
                         out.append({"op": "generate", "vendor": v, "cls": c, "dp": dp, "iu": iu, "sv": sv,
                                     "addr": rng.choice(addrs), "size": size,
                                     "via": "cli" if k % (12 if quick else 20) == 0 and "\x00" not in v else "lib"})
+    # notation of --size on the real command line: hexadecimal sizes ending in every letter digit, in both cases
+    for j, last in enumerate("abcdefABCDEF"):
+        size = int(("4" if j % 2 else "1c") + last, 16)
+        out.append({"op": "generate", "vendor": NAMES[j % len(NAMES)][0].replace("\x00", "n"), "cls": NAMES[j % len(NAMES)][1].replace("\x00", "n"),
+                    "dp": bool(j % 2), "iu": bool(j % 3), "sv": SV[j % len(SV)], "addr": addrs[j % len(addrs)], "size": size,
+                    "via": "cli", "sizenote": "0x%x" if last.islower() else "0x%X"})
     return out
 
 
@@ -243,6 +258,13 @@ def merge_scenarios(ctx):
             continue
         out.append({"op": "merge", "addr": addr, "size": size, "inputs": inputs,
                     "via": "cli" if k % (15 if ctx.quick else 40) == 0 else "lib"})
+    # notation of --size on the real command line (hexadecimal, last digit a letter, both cases): inputs inside the named area
+    for j, last in enumerate("abcdefABCDEF"):
+        size = int(("6" if j % 2 else "a") + last, 16)
+        out.append({"op": "merge", "addr": [0x2000, 0x0E1EC000, 0xFFC0][j % 3], "size": size, "via": "cli",
+                    "sizenote": "0x%x" if last.islower() else "0x%X",
+                    "inputs": [{"off": 0, "len": 48, "src": "tool", "seed": 9000 + j, "rl": 16},
+                               {"off": size - 49 + (j % 2), "len": 48 + (j % 3 == 0), "src": "own", "seed": 9100 + j, "rl": 32}]})
     return out
 
 
